@@ -129,3 +129,69 @@ def renamed_facts(facts, facts_dir, cls, field_map, entry, fn_map):
                     if e.get('class') == cls and e.get('initfield') in field_map: e['initfield'] = field_map[e['initfield']]
         return d
     return Facts(facts_dir, [t.name for t in facts.tus], transform=tr)
+
+
+# ---- containers ------------------------------------------------------------------------------------------------------------
+def _returned_field(facts, cls_full, fname):
+    """name of the field of cls_full that member function fname returns directly (`return m_x;`), else None"""
+    for f in facts.fns:
+        if f.d.get('classfull') == cls_full and f.qname.split('::')[-1] == fname and not f.d.get('params'):
+            rets = [n for n in f.nodes() if n.k == 'return' and n.n('sub') is not None]
+            if len(rets) == 1:
+                r = rets[0].n('sub')
+                while r is not None and r.k == 'cast': r = r.n('sub')
+                if r is not None and r.k == 'member' and r.field: return r.name
+    return None
+
+
+def infer_containers(facts):
+    """{generic class: {actual field: canonical field}} for RingBuffer (m_data, m_size, m_capacity, m_pos), Array (m_array, m_size)
+    and RandomAccessIndexIterator (m_container, m_index); a class whose fields cannot be told apart is left out"""
+    out = {}
+    by_g = {}
+    for cn, c in facts.classes.items(): by_g.setdefault(strip_targs(cn), []).append((cn, c))
+    for g, want in (('tulz::RingBuffer', 4), ('tulz::Array', 2), ('tulz::RandomAccessIndexIterator', 2)):
+        for cn, c in by_g.get(g, [])[:1]:
+            fields = c['fields']
+            if len(fields) != want: continue
+            ptr = [f for f in fields if f['ctype'].rstrip().endswith('*')]
+            ints = [f for f in fields if _is_int(f['ctype']) or f['ctype'] in ('ssize_t', 'size_t', 'std::size_t', 'std::ptrdiff_t', 'ptrdiff_t', '__ssize_t')]
+            refs = [f for f in fields if f.get('isref')]
+            m = {}
+            if g == 'tulz::RingBuffer':
+                sz = _returned_field(facts, cn, 'size'); cap = _returned_field(facts, cn, 'capacity')
+                rest = [f['name'] for f in fields if f['name'] not in (sz, cap) and f not in ptr]
+                if len(ptr) == 1 and sz and cap and sz != cap and len(rest) == 1:
+                    m = {ptr[0]['name']: 'm_data', sz: 'm_size', cap: 'm_capacity', rest[0]: 'm_pos'}
+            elif g == 'tulz::Array':
+                sz = _returned_field(facts, cn, 'size')
+                if len(ptr) == 1 and sz and sz != ptr[0]['name']: m = {ptr[0]['name']: 'm_array', sz: 'm_size'}
+            else:
+                other = [f for f in fields if f not in refs]
+                if len(refs) == 1 and len(other) == 1: m = {refs[0]['name']: 'm_container', other[0]['name']: 'm_index'}
+            if m: out[g] = m
+    return out
+
+
+def renamed_fields(facts, maps):
+    """Facts view with the fields of the given (generic) classes renamed: maps = {generic class: {actual: canonical}}"""
+    def tr(d):
+        for nid, n in d['exprs'].items():
+            if n.get('k') == 'member' and n.get('field'):
+                m = maps.get(strip_targs(n.get('classfull') or n.get('class') or ''))
+                if m and n['name'] in m: n['name'] = m[n['name']]
+        for c in d['classes']:
+            m = maps.get(strip_targs(c['fullname']))
+            if m:
+                for f in c['fields']:
+                    if f['name'] in m: f['name'] = m[f['name']]
+        for f in d['functions']:
+            m = maps.get(strip_targs(f.get('classfull') or f.get('class') or ''))
+            if not m: continue
+            for i in f.get('inits') or []:
+                if i.get('field') in m: i['field'] = m[i['field']]
+            for b in (f.get('cfg') or {}).get('blocks', []):
+                for e in b['elems']:
+                    if e.get('initfield') in m: e['initfield'] = m[e['initfield']]
+        return d
+    return Facts(facts.dir, [t.name for t in facts.tus], transform=tr)
